@@ -165,6 +165,10 @@ func c16Actors() []c16Actor {
 					})
 					e.note("P.with", err)
 				}()
+				// the panic has been recovered by the caller: the writer slot must be free again before (and whether or
+				// not) the session is ended
+				_, err := coll(e).InsertOne(e.w.Ctx, bD("_id", fmt.Sprintf("P%d-after", k)))
+				e.note("P.after", err)
 				sess.EndSession(e.w.Ctx)
 			})
 		}},
